@@ -86,6 +86,20 @@ Kept(n, ids) ==
     LET roots == {RootOf(n, ids[i]) : i \in DOMAIN ids} IN
     {x \in 0..(Len(n) - 1) : RootOf(n, x) \in roots}
 
+\* C20, last clause: serializing visits every node exactly once, in document order (template contents in place of a
+\* template's children).  Expected visit sequence of a dumped tree, in the shape the harness's recording Serializer logs.
+RECURSIVE Visits(_), VisitsOf(_, _)
+Visits(n) ==
+    CASE n.k = "el" -> <<[k |-> "s", n |-> n.local, a |-> Len(n.attrs)]>>
+                       \o VisitsOf(IF n.tmpl # <<>> THEN n.tmpl[1] ELSE n.ch, 1)
+                       \o <<[k |-> "e", n |-> n.local, a |-> 0]>>
+      [] n.k = "text" -> <<[k |-> "t", n |-> n.s, a |-> 0]>>
+      [] n.k = "comment" -> <<[k |-> "c", n |-> n.s, a |-> 0]>>
+      [] n.k = "doctype" -> <<[k |-> "d", n |-> n.name, a |-> 0]>>
+      [] n.k = "pi" -> <<[k |-> "p", n |-> n.target, a |-> 0]>>
+      [] OTHER -> <<>>
+VisitsOf(ch, i) == IF i > Len(ch) THEN <<>> ELSE Visits(ch[i]) \o VisitsOf(ch, i + 1)
+
 Reject(e, why) == PrintT(<<"REJECT", l, e.case, why>>)
 
 Judged(p) == Prop = p \/ Prop = "ALL"
@@ -118,7 +132,8 @@ Step(e) ==
     ELSE IF e.ev = "tree" THEN
         \* after a call outside the contract the abstract DOM is not meaningful (C20 is not judged on that case);
         \* the clauses that only look at the delivered tree still are
-        LET okC20 == skipping \/ e.panic # <<>> \/ (CanonNode(nodes, 0) = e.dom /\ e.parents_ok /\ LinksConsistent(nodes))
+        LET okSer == "ser" \notin DOMAIN e \/ e.dom.k # "doc" \/ e.ser = VisitsOf(e.dom.ch, 1)
+            okC20 == e.panic # <<>> \/ (okSer /\ (skipping \/ (CanonNode(nodes, 0) = e.dom /\ e.parents_ok /\ LinksConsistent(nodes))))
             okC06 == e.panic # <<>> \/ mode # "doc" \/ Skeleton(e.dom)
             okC04 == e.panic = <<>> /\ e.neof = 1
             bad == (Judged("C20") /\ ~okC20) \/ (Judged("C06") /\ ~okC06) \/ (Judged("C04") /\ ~okC04) IN
